@@ -839,7 +839,7 @@ def canon_world(w):
         if t.__name__ == 'DelayedCall':
             if o.cancelled or o.called:
                 return ('DC', n, 'dead', bool(o.cancelled), bool(o.called))
-            return ('DC', n, round(o.time - now, 6), cv(o.func, depth + 1), cv(o.args, depth + 1),
+            return ('DC', n, round(o.getTime() - now, 6), cv(o.func, depth + 1), cv(o.args, depth + 1),
                     cv(o.kw, depth + 1))
         if hasattr(o, '_verif_rec'):
             return ('rec', o._verif_rec)
